@@ -44,7 +44,7 @@ def tk(t):
     return tuple(key(T(x)) for x in t)
 
 
-def parse_modes(doc, fmt, dataset, modes, base=None):
+def parse_modes(doc, fmt, dataset, modes, base=None, encoding="utf-8"):
     """-> {mode: set of key tuples | SutError}"""
     res = {}
     tmp = None
@@ -54,15 +54,15 @@ def parse_modes(doc, fmt, dataset, modes, base=None):
             if mode == "str":
                 kw["data"] = doc
             elif mode == "bytes":
-                kw["data"] = doc.encode("utf-8")
+                kw["data"] = doc.encode(encoding)
             elif mode == "BytesIO":
-                kw["file"] = io.BytesIO(doc.encode("utf-8"))
+                kw["file"] = io.BytesIO(doc.encode(encoding))
             elif mode == "StringIO":
                 kw["file"] = io.StringIO(doc)
             else:
                 if tmp is None:
                     tmp = tempfile.mkdtemp(prefix="c05-")
-                    with open(os.path.join(tmp, "doc" + SUFFIX[fmt]), "w", encoding="utf-8", newline="") as f:
+                    with open(os.path.join(tmp, "doc" + SUFFIX[fmt]), "w", encoding=encoding, newline="") as f:
                         f.write(doc)
                 path = os.path.join(tmp, "doc" + SUFFIX[fmt])
                 if mode == "Path":
@@ -97,7 +97,7 @@ def parse_modes(doc, fmt, dataset, modes, base=None):
 
 def judge(out, res, want, fmt, doc, feats, case_desc):
     """all hand-over modes must give the wanted graph"""
-    first = res.get("str")
+    first = res.get("str", next(iter(res.values())))
     for mode, r in res.items():
         if is_err(r):
             out.fail(("parse-raises", fmt, mode if is_err(first) is False else "all-modes", r.kind, r.site),
@@ -411,7 +411,10 @@ def xml_nodes(draw, depth):
 def xml_cases(draw, tier):
     nodes = draw(st.lists(xml_nodes(2), min_size=1, max_size=3))
     modes = ["str"] + draw(st.lists(st.sampled_from(MODES[1:]), min_size=1, max_size=2, unique=True))
-    return {"syntax": "xml", "nodes": nodes, "choices": draw(st.lists(st.integers(0, 999), min_size=80, max_size=140)), "modes": modes}
+    enc = draw(st.sampled_from([None, None, None, "ISO-8859-1", "UTF-16", "utf-8"]))
+    if enc:
+        modes = draw(st.lists(st.sampled_from(["bytes", "BytesIO", "Path", "location"]), min_size=1, max_size=3, unique=True))
+    return {"syntax": "xml", "nodes": nodes, "choices": draw(st.lists(st.integers(0, 999), min_size=80, max_size=140)), "modes": modes, "encoding": enc}
 
 
 def xml_ast(n):
@@ -457,18 +460,28 @@ def run_xml(case):
     iris = []
     for n in nodes:
         xml_iris(n, iris)
+    enc = case.get("encoding")
     try:
-        doc = sx.RDFXMLWriter(c).document(nodes, list(dict.fromkeys(iris)))
+        doc = sx.RDFXMLWriter(c, encoding=enc).document(nodes, list(dict.fromkeys(iris)))
     except AssertionError:
         out.cls("invalid-shape")
         return out
+    modes = case["modes"]
+    if enc:
+        # a document in another encoding exists as bytes only
+        try:
+            doc.encode(enc)
+        except UnicodeEncodeError:
+            out.cls("not-encodable-in-" + enc.lower())
+            return out
+        modes = [m for m in modes if m not in ("str", "StringIO")] or ["bytes"]
     # the document must at least be well-formed XML for the standard library (self-test of the writer)
     p = xml.parsers.expat.ParserCreate(namespace_separator=" ")
     try:
-        p.Parse(doc.encode("utf-8"), True)
+        p.Parse(doc.encode(enc or "utf-8"), True)
     except xml.parsers.expat.ExpatError as e:
         raise AssertionError(f"harness RDF/XML writer produced ill-formed XML: {e}\n{doc}")
-    res = parse_modes(doc, "xml", False, case["modes"])
+    res = parse_modes(doc, "xml", False, modes, encoding=enc or "utf-8")
     if not judge(out, res, want, "xml", doc, c.features, case):
         return out
     out.nontrivial = len(c.features) >= 2 and bool(want)
@@ -613,6 +626,8 @@ CORPUS = [
      [["u:file:////x//y", "u:urn:e:p", "u:http://ex.org/q?"], ["u:file:////x//y", "u:urn:e:p", "u:http://ex.org/b/d?"]]),
     ("json-ld", '{"@context": {"@base": "http://ex.org/b/c"}, "@id": "//ex.org/a//b", "urn:p": {"@id": "/x//y"}}', [["u:http://ex.org/a//b", "u:urn:p", "u:http://ex.org/x//y"]]),
     ("json-ld", '{"@id":"urn:a","urn:p":"é😀"}', [["u:urn:a", "u:urn:p", "l:é😀"]]),
+    ("xml@ISO-8859-1", '<?xml version="1.0" encoding="ISO-8859-1"?><rdf:RDF xmlns:rdf="http://www.w3.org/1999/02/22-rdf-syntax-ns#" xmlns:e="urn:e:"><rdf:Description rdf:about="urn:a"><e:p>caf\u00e9</e:p></rdf:Description></rdf:RDF>',
+     [["u:urn:a", "u:urn:e:p", "l:caf\u00e9"]]),
 ]
 
 
@@ -627,6 +642,9 @@ def corpus_term(s):
 def run_corpus(case):
     out = Out()
     fmt, doc, exp = CORPUS[case["i"]]
+    enc = "utf-8"
+    if "@" in fmt:
+        fmt, enc = fmt.split("@")
     dataset = fmt in ("nquads", "trig", "json-ld")
     want = set()
     for t in exp:
@@ -634,7 +652,7 @@ def run_corpus(case):
         if dataset:
             q = q if len(q) == 4 else q + (None,)
         want.add(q)
-    res = parse_modes(doc, fmt, dataset, MODES)
+    res = parse_modes(doc, fmt, dataset, MODES if enc == "utf-8" else ["bytes", "BytesIO", "Path", "location"], encoding=enc)
     if not judge(out, res, want, fmt, doc, {"corpus"}, case):
         return out
     out.nontrivial = True
